@@ -1077,7 +1077,7 @@ class GenDecl(GenExt):
         return L, name
 
     def every_stmt(self, ints, lst, procs):
-        """one statement of every kind of the grammar (alias_statement excluded: it aborts the tools)"""
+        """one statement of every kind of the grammar"""
         a, b = ints[0], ints[1]
         e = lambda d=1: self.ex(ints, d, [lst])
         j = self.name("j", 2)
@@ -1089,7 +1089,9 @@ class GenDecl(GenExt):
                f"CASE {a} OF", f"1 : {b} := {e()};", "2 : BEGIN", f"  {a} := {e()};", f"  {b} := {e()};", "END;", f"OTHERWISE : {b} := {e()};", "END_CASE;",
                f"CASE {b} OF", f"{e()} : SKIP;", "END_CASE;",
                "BEGIN", f"  {a} := {e()};", "END;"]
-        for t in ("assignment", "if", "repeat", "repeat-while", "repeat-until", "escape/skip", "skip", "case", "case-otherwise", "compound"):
+        al = self.name("al", 3)
+        out += [f"ALIAS {al} FOR {lst}[1];", f"  {a} := {a} + {al};", "END_ALIAS;"]
+        for t in ("assignment", "if", "repeat", "repeat-while", "repeat-until", "escape/skip", "skip", "case", "case-otherwise", "compound", "alias"):
             self.hit("stmt:" + t)
         if procs:
             out.append(f"{procs[0]}({a}, {e()});"); self.hit("stmt:procedure-call")
